@@ -57,6 +57,8 @@ type digest struct {
 	lh      string
 	pending string
 	used    int
+	usedIdx []uint32
+	idxName map[uint32]string // relay index -> "r"+owner's peer name; hostinfo index -> peer name
 }
 
 func (e *exec) digest(n *relaynet.Node) digest {
@@ -68,6 +70,16 @@ func (e *exec) digest(n *relaynet.Node) digest {
 	d.lh = strings.Join(st.LhCache, ";")
 	d.pending = strings.Join(st.Pending, ";")
 	d.used = len(st.RelayUsed)
+	d.usedIdx = st.RelayUsed
+	d.idxName = map[uint32]string{}
+	byIdx := map[uint32]string{}
+	for _, h := range st.Hosts {
+		byIdx[h.LocalIndex] = e.nameOfHost(n, h)
+		d.idxName[h.LocalIndex] = byIdx[h.LocalIndex]
+	}
+	for i, o := range st.RelaysMap {
+		d.idxName[i] = "r" + byIdx[o]
+	}
 	return d
 }
 
@@ -137,9 +149,29 @@ func (e *exec) observeAct(rx int, act func(n *relaynet.Node)) string {
 		}
 	}
 	sort.Strings(out)
-	return fmt.Sprintf("tun=%d out=%s del=%s roam=%s in=%s win=%s rs=%s lh=%s pend=%s used=%d",
+	// which relay indexes are marked used, by name: r<peer> = a relay index living on the tunnel with
+	// <peer>, <peer> = a hostinfo index (never a relay index), zero, other = an index nobody owns
+	var ru []string
+	seenRu := map[string]bool{}
+	for _, i := range after.usedIdx {
+		nm, ok := before.idxName[i]
+		if !ok {
+			nm, ok = after.idxName[i]
+		}
+		if !ok {
+			nm = "other"
+			if i == 0 {
+				nm = "zero"
+			}
+		}
+		if !seenRu[nm] {
+			seenRu[nm] = true
+			ru = append(ru, nm)
+		}
+	}
+	return fmt.Sprintf("tun=%d out=%s del=%s roam=%s in=%s win=%s rs=%s lh=%s pend=%s used=%d ru=%s",
 		len(n.Dev.Out), set(out), set(del), set(roam), set(in), set(win), set(rs),
-		hlib.B(before.lh != after.lh), hlib.B(before.pending != after.pending), after.used)
+		hlib.B(before.lh != after.lh), hlib.B(before.pending != after.pending), after.used, set(ru))
 }
 
 // produce makes the sender emit one fresh valid datagram of the kind and returns it (taken off the wire).
@@ -231,6 +263,16 @@ func (e *exec) symIdx(sym string) uint32 {
 			}
 		}
 		return 0xfffffff1
+	case "relayB":
+		// a relay index of A that lives on its tunnel with B (exists after `pkt ctrl … none`)
+		st := A.State()
+		own := st.HostsMap[e.net.Nodes[nB].Vpn.String()]
+		for i, o := range st.RelaysMap {
+			if o == own && own != 0 {
+				return i
+			}
+		}
+		return 0xfffffff2
 	case "zero":
 		return 0
 	}
@@ -468,6 +510,72 @@ func newExec(t *testing.T) func([]string) string {
 				return "no-packet"
 			}
 			return e.observe(nA, e.src(a[1], nR), q[len(q)-1].Data) + " seen=0 xr=" + hlib.B(e.xRemote())
+		case "xdirect":
+			// xdirect <own|other> <allow|deny>: A's hostinfo for X is given a direct underlay remote E (X's real
+			// address, or another one), then X sends one more AUTHENTIC data packet that still travels through
+			// the relay (arrives from R's underlay address); A's remote for X and the learned address list of X
+			// are read back; then the tunnel is made relay-only again. deny: lighthouse.remote_allow_list
+			// refuses the relay's address.
+			if e.net == nil {
+				return "bad-op"
+			}
+			A, X, R := e.net.Nodes[nA], e.net.Nodes[nX], e.net.Nodes[nR]
+			xi := A.PrimaryIndex(X.Vpn)
+			if xi == 0 {
+				return "no-tunnel"
+			}
+			E := e.src(a[1], nX)
+			pkt, _, _, ok := e.produce("rmsg")
+			if !ok {
+				return "no-packet"
+			}
+			// the relay frame arrives from the address A currently has for R (so that R's own tunnel does not roam)
+			rAddr := R.Udp
+			for _, h := range A.State().Hosts {
+				if h.LocalIndex == A.PrimaryIndex(R.Vpn) && h.Remote.IsValid() {
+					rAddr = h.Remote
+				}
+			}
+			if a[2] == "deny" {
+				if err := A.SetRemoteAllowListDeny(rAddr.Addr().String() + "/32"); err != nil {
+					panic(err)
+				}
+			}
+			learned := func() bool {
+				for _, l := range A.State().LhCache {
+					if strings.HasPrefix(l, X.Vpn.String()+"=") && strings.Contains(strings.SplitN(l, "|", 2)[0], rAddr.String()) {
+						return true
+					}
+				}
+				return false
+			}
+			had := learned()
+			A.SetRemoteByIndex(xi, E)
+			A.Dev.Out = nil
+			e.net.Take()
+			A.Inject(rAddr, append([]byte{}, pkt...))
+			tun := len(A.Dev.Out)
+			remote := "none"
+			lrelay := false
+			st := A.State()
+			for _, h := range st.Hosts {
+				if h.LocalIndex == xi {
+					switch {
+					case !h.Remote.IsValid():
+					case h.Remote == E:
+						remote = "E"
+					case h.Remote == rAddr:
+						remote = "relay"
+					default:
+						remote = "elsewhere"
+					}
+				}
+			}
+			lrelay = learned() && !had
+			A.SetRemoteAllowListDeny("")
+			A.ClearRemote(xi)
+			e.net.Take()
+			return fmt.Sprintf("tun=%d remote=%s lrelay=%s xr=%s", tun, remote, hlib.B(lrelay), hlib.B(e.xRemote()))
 		case "reply":
 			// reply: A's tun hands nebula a packet for X; it must leave as a Message/Relay frame to the relay
 			if e.net == nil {
@@ -517,6 +625,25 @@ func gen(r *hlib.Rand, n int, tier, profile string, emit func(string, ...any)) {
 		emit("reset %d %s %s %s", hlib.Pick(r, 100, 5000, 70000), hlib.Pick(r, "always", "always", "never"), hlib.Pick(r, "always", "always", "never"),
 			hlib.Pick(r, "none", "relay", "relay", "peer", "other", "all"))
 		ops++
+		// C14 (unauthenticated inner packet inside an authentic relay frame): the relay re-seals a payload of
+		// >= 16 bytes whose header names another relay index of A / a hostinfo index / nobody's index / the
+		// carrying index itself, or whose body is garbage; only the carrying relay index may be marked used
+		// C15 (a relayed packet never changes the endpoint's remote): X's tunnel at A gets a direct remote,
+		// then an authentic packet of X arrives through the relay
+		if r.Chance(1, 2) {
+			emit("xdirect own allow")
+			emit("xdirect other %s", hlib.Pick(r, "allow", "allow", "deny"))
+			ops += 2
+		}
+		if r.Chance(1, 2) {
+			emit("pkt ctrl own out none")
+			emit("pkt rmsg %s lie setidx relayB", hlib.Pick(r, "own", "own", "other"))
+			emit("pkt rmsg own lie setidx %s", hlib.Pick(r, "B", "R", "unknown", "zero"))
+			emit("pkt rmsg own lie setidx relay")
+			emit("pkt rmsg own lie flipbody %d %d", r.Intn(1000), r.Intn(8))
+			emit("pkt rmsg own lie trunc %d", hlib.Pick(r, 16, 17, 32))
+			ops += 6
+		}
 		steps := r.Range(15, 60)
 		for k := 0; k < steps; k++ {
 			kind := hlib.Pick(r, kinds...)
@@ -533,7 +660,9 @@ func gen(r *hlib.Rand, n int, tier, profile string, emit func(string, ...any)) {
 			// relay-only tunnel X-A: retransmitted / replayed stage-0 handshakes re-wrapped by the relay,
 			// and A's own traffic for X, which must stay inside the relay tunnel
 			if y := r.Intn(100); y < 8 || (profile == "C15" && y < 22) {
-				switch r.Intn(5) {
+				switch r.Intn(6) {
+				case 5:
+					emit("xdirect %s %s", hlib.Pick(r, "own", "other"), hlib.Pick(r, "allow", "allow", "deny"))
 				case 0:
 					emit("hsdup %s %s X", hlib.Pick(r, "own", "own", "other", "mynet"), hlib.Pick(r, "relay", "relay", "relay", "flip"))
 				case 1:
